@@ -240,3 +240,44 @@ Proof. exact (@Net_props2.C14_reachable_rv). Qed.
 Print Assumptions C14_records_sound.
 Print Assumptions C14_records_equal.
 Print Assumptions C14_reachable_rv.
+
+(* ---- sender and receiver composed through the real codec (Wire.v): if the sender's handler reports Ready for its last
+   wantlist w, the stream accepted exactly the frame of w, and however the receiver's reads cut those bytes the receiver's
+   behaviour is handed exactly one IncomingMessage with server part w (none if w is an empty update) and the stream ends
+   cleanly — the byte-level content of the "atomic delivery" that Net.v assumes.  Non-vacuity: Wire.C14_wire_delivery_ex. *)
+From BS Require Import Bytes Varint Varint_proofs Cid Prefix Hasher Proto Incoming Qp ProtoCodec RefProto Frame Framed Codec Frame_proofs Framed_proofs ProtoCodec_proofs RefProto_proofs Codec_proofs Prefix_proofs Incoming_proofs Streams Streams_proofs Types FramedWrite Handler Handler_proofs Wire.
+From Coq Require Import ZArith ZifyBool ZifyN ZifyNat Lia.
+Open Scope N_scope.
+
+Theorem wire_receive_wantlist :
+  forall (Sz : N) (Hh : hash_fn) (chk : bool) (w : wantlist) (evs : list read_ev),
+  wf_message (wantlist_message w) ->
+  size_ok write_message (wantlist_message w) ->
+  live evs ->
+  ev_data evs = codec_encode (wantlist_message w) ->
+  stream_out Sz Hh chk (evs ++ [Eof]) =
+  (if announces w then [{| in_client := None; in_server := Some w |}] else [], SfEnd).
+Proof. exact (@Wire.wire_receive_wantlist). Qed.
+
+Theorem C14_wire_delivery :
+  forall (Sz : N) (Hh : hash_fn) (chk : bool) (c : conn) (ops : list hop),
+  disciplined codec_encode true c ops = true ->
+  let st := handler_final codec_encode c ops in
+  let outs := handler_outs codec_encode c ops in
+  h_queue st = [] ->
+  last (reports outs) RpReady = RpReady ->
+  sent_ws ops <> [] ->
+  exists (id : N) (w : wantlist) (ws0 : list wantlist),
+    sent_ws ops = ws0 ++ [w] /\
+    wrote_on id outs = codec_encode (wantlist_message w) /\
+    (wf_message (wantlist_message w) ->
+     size_ok write_message (wantlist_message w) ->
+     forall evs : list read_ev,
+     live evs ->
+     ev_data evs = wrote_on id outs ->
+     stream_out Sz Hh chk (evs ++ [Eof]) =
+     (if announces w then [{| in_client := None; in_server := Some w |}] else [], SfEnd)).
+Proof. exact (@Wire.C14_wire_delivery). Qed.
+
+Print Assumptions wire_receive_wantlist.
+Print Assumptions C14_wire_delivery.
